@@ -33,6 +33,7 @@ SplitEvery = {se}
 Wide = {wide}
 Reindexes = {{{reindexes}}}
 ByDasks = {{{bydasks}}}
+NLabels2 = {nlabels2}
 Names = {{{names}}}
 """
 
@@ -47,11 +48,11 @@ def _workdir(td):
 
 
 def simulate(n: int, seed: int, *, maxlen=5, minlen=None, nlabels=3, se=2, wide=True, names=NAMES, timeout=900,
-             reindexes=("none", "true", "false"), bydasks=(False, True)) -> tuple[list, dict]:
+             reindexes=("none", "true", "false"), bydasks=(False, True), nlabels2=2) -> tuple[list, dict]:
     """n behaviours of Flox.tla (one TLC -simulate run, single worker: PrintT lines stay whole)"""
     cfg = CFG.format(maxlen=maxlen, minlen=maxlen if minlen is None else minlen, nlabels=nlabels, se=se,
                      wide="TRUE" if wide else "FALSE", names=", ".join(json.dumps(x) for x in names),
-                     reindexes=", ".join(json.dumps(x) for x in reindexes), bydasks=", ".join("TRUE" if b else "FALSE" for b in bydasks))
+                     reindexes=", ".join(json.dumps(x) for x in reindexes), bydasks=", ".join("TRUE" if b else "FALSE" for b in bydasks), nlabels2=nlabels2)
     cfg += "INVARIANT Emit\nINVARIANT Inv_Result\nINVARIANT Inv_CleanRefusal\nINVARIANT Inv_AutoPlanSound\n"
     os.makedirs("/verif/out/work", exist_ok=True)
     with tempfile.TemporaryDirectory(prefix="flox-sim-", dir="/verif/out/work") as td:
@@ -76,8 +77,8 @@ def simulate(n: int, seed: int, *, maxlen=5, minlen=None, nlabels=3, se=2, wide=
     behs = []
     for mm in re.finditer(r'<<\s*"BEH"', out):
         v, _ = tlaval.parse_prefix(out, mm.start())
-        _, vals, labs, cuts, cfgv, groups, plan, result, pref, sizes, codes = v
-        behs.append({"vals": vals, "labs": labs, "cuts": cuts, "cfg": cfgv, "groups": groups, "plan": plan, "result": result,
+        _, vals, labs, labs2, cuts, cfgv, groups, plan, result, pref, sizes, codes = v
+        behs.append({"vals": vals, "labs": labs, "labs2": labs2, "nlabels2": nlabels2, "cuts": cuts, "cfg": cfgv, "groups": groups, "plan": plan, "result": result,
                      "pref": pref, "sizes": list(sizes), "codes": list(codes), "nlabels": nlabels, "se": se})
     return behs, info
 
@@ -104,6 +105,12 @@ def case_of(beh, table):
     }
     if beh["cfg"]["hasExpected"]:
         case["req"] = [nl - i for i in range(1, nl + 1)]
+    if beh["cfg"].get("two"):
+        nl2 = beh["nlabels2"]
+        case["codes2"] = list(beh["labs2"])
+        case["nlabels2"] = nl2
+        if beh["cfg"]["hasExpected"]:
+            case["req2"] = [nl2 - i for i in range(1, nl2 + 1)]
     if row["userFill"]["some"]:
         case["fill"] = list(row["userFill"]["v"])
     if row["minCount"] > 0:
@@ -121,7 +128,7 @@ def run_compose_case(beh: dict) -> dict:
     case = case_of(beh, table)
     fails, drift = [], []
     del _verif.EVENTS[:]
-    rec = redcase.run_reduce_case(case)
+    rec = run_two_case(case) if "codes2" in case else redcase.run_reduce_case(case)
     plan_ev = [e for e in _verif.EVENTS if e["ev"] == "plan"]
     spec_plan = beh["plan"]
     out = {"case": case, "spec": {"plan": spec_plan, "groups": beh["groups"], "result": beh["result"]},
@@ -192,3 +199,44 @@ def _confined(codes, chunks):
                 where.setdefault(c, set()).add(b)
         pos += n
     return all(len(s) == 1 for s in where.values())
+
+
+def run_two_case(case: dict) -> dict:
+    """two categorical groupers (float label levels, NaN = missing); the result grid is flattened row-major and the
+    returned label pairs are raveled to the tokens used by Flox.tla (l1 * NLabels2 + l2)"""
+    import warnings
+
+    import dask
+    import dask.array as da
+    import numpy as np
+
+    from flox.core import groupby_reduce
+
+    from . import redcase
+    from .project import ProjectionError
+
+    warnings.filterwarnings("ignore")
+    array = redcase.concretize(case["vals"], "f8")
+    by1 = redcase.label_array(case["codes"], "float")
+    by2 = redcase.label_array(case["codes2"], "float")
+    kw = redcase.build_kwargs({k: v for k, v in case.items() if k != "req"})
+    tab = redcase.LABELS["float"]
+    if case.get("req") is not None:
+        kw["expected_groups"] = (np.array([tab[t] for t in case["req"]]), np.array([tab[t] for t in case["req2"]]))
+    rec = dict(case)
+    try:
+        arr = da.from_array(array, chunks=(tuple(case["chunks"]),))
+        with dask.config.set(scheduler="synchronous", split_every=case.get("split_every") or 4):
+            result, g1, g2 = groupby_reduce(arr, by1, by2, **kw)
+            rec["lazy"] = bool(hasattr(result, "dask"))
+            result, g1, g2 = dask.compute(result, g1, g2)
+        t1, t2 = redcase.label_tokens(g1, "float"), redcase.label_tokens(g2, "float")
+        rec["groups"] = [a * case["nlabels2"] + b for a in t1 for b in t2]
+        rec["out"] = redcase.project_out(case["func"], np.asarray(result).reshape(-1), case.get("tol") or 1e-9)
+        if np.asarray(result).shape != (len(t1), len(t2)):
+            rec["exc"], rec["msg"] = "ShapeMismatch", f"result shape {np.asarray(result).shape} for label grid {(len(t1), len(t2))}"
+    except ProjectionError as e:
+        rec["exc"], rec["msg"] = "ProjectionError", str(e)
+    except Exception as e:  # noqa: BLE001
+        rec["exc"], rec["msg"] = type(e).__name__, str(e)[:300]
+    return rec
